@@ -299,7 +299,7 @@ def adc(img, gain, saturation_capacity=None, warn_saturate=False, dtype=None):
     img = np.asarray(img)
 
     # Enforce saturation capacity
-    if saturation_capacity:
+    if saturation_capacity is not None:
         if warn_saturate:
             if np.any(img > saturation_capacity):
                 warnings.warn('Frame has saturated pixels.')
